@@ -39,7 +39,7 @@ def catalog(kind):
     raise ValueError(kind)
 
 
-SHAPES = ['t_m', 'm_t', 't_t_m', 't_m_t', 'sub_m', 't_m_m', 't_m_m_aliased', 't_m_t_m', 'implicit', 'on_map', 'left_join', 't_m_version',
+SHAPES = ['t_m', 'm_t', 't_t_m', 't_m_t', 'sub_m', 't_m_m', 't_m_m_aliased', 't_m_t_m', 'implicit', 'on_map', 'on_map_two', 'on_map_reversed', 'on_map_paren', 'on_map_func', 'on_map_not', 'on_map_or', 'on_map_between', 'on_map_gt', 'left_join', 't_m_version',
           # a second table whose ON clause carries more than the key equality (allowed pushdown: top-level conjuncts of an inner / left join's ON)
           't_t_m_on_and', 't_t_m_on_or', 't_t_m_on_not', 't_t_m_on_constfirst', 't_t_m_left_on_and', 't_t_m_right_on_and', 't_t_m_on_paren_or',
           # a table joined after the model: no ON, non-equality ON, ON against a model column
@@ -57,6 +57,17 @@ ON_EXTRA = {
     't_t_m_left_on_and': ('LEFT JOIN', '{t}.id = t2.id AND t2.b = 3', {('eq', 'b', 3)}),
     't_t_m_right_on_and': ('RIGHT JOIN', '{t}.id = t2.id AND t2.b = 3', set()),
     't_t_m_on_paren_or': ('JOIN', '{t}.id = t2.id AND (t2.b = 3 OR t2.y = 1)', set()),
+}
+ON_MAPS = {
+    # shape -> (ON text, expected column mapping or None when the statement fixes none)
+    'on_map_two': ('{m}.p1 = {t}.a AND {m}.p2 = {t}.x', {'p1': '{t}.a', 'p2': '{t}.x'}),
+    'on_map_reversed': ('{t}.a = {m}.p1', {'p1': '{t}.a'}),
+    'on_map_paren': ('({m}.p1 = {t}.a)', {'p1': '{t}.a'}),
+    'on_map_func': ('{m}.p1 = lower({t}.a)', None),
+    'on_map_not': ('NOT {m}.p1 = {t}.a', None),
+    'on_map_or': ('{m}.p1 = {t}.a OR {m}.p2 = {t}.x', None),
+    'on_map_between': ('{m}.p1 BETWEEN {t}.a AND {t}.x', None),
+    'on_map_gt': ('{m}.p1 > {t}.a', None),
 }
 WHERES = [
     # label, sql with {t} {m} placeholders, list of conjunct descriptors: (owner, context, kind, col, value)
@@ -205,6 +216,11 @@ def build(a):
             tables.append(dict(name='t2', integration='int2', ref='t2'))
     elif shape == 'implicit':
         frm = f'{tref}, {mref}'
+    elif shape in ON_MAPS:
+        cond, mp = ON_MAPS[shape]
+        frm = f'{tref} JOIN {mref} ON ' + cond.replace('{t}', t).replace('{m}', m)
+        # mp None: the statement does not fix a mapping (comparison under NOT / OR / inside a function ...): not judged
+        models[0]['on_map'] = None if mp is None else {k: v.replace('{t}', t) for k, v in mp.items()}
     elif shape == 'on_map':
         frm = f'{tref} JOIN {mref} ON {t}.a = {m}.p1'
         models[0]['on_map'] = {'p1': f'{t}.a'}
